@@ -16,6 +16,7 @@ Unit syntax: ordinary Verus text, copied verbatim, interleaved with directives:
      //@sigonly                   emit only the signature + spec, terminated by ';' (trait methods)
      //@attrs derive              keep only the item's #[derive(..)] attributes
      //@replace_body              R8: keep the signature, drop the body (`unimplemented!()`), mark external_body: contract ASSUMED
+     //@vattr <attr>              emit `#[verifier::<attr>]` before the fn (verifier-only, e.g. rlimit(80))
      //@external_body             emit `#[verifier::external_body]` before the item (body kept, not verified)
      //@hoist <kind>:<name>       R14: remove a nested item from the body (extract it separately)
      //@spec                      following lines go between signature and body
@@ -109,6 +110,21 @@ def auto_rules(text, log, where, exec_eval=False):
             cnt += 1
         out.append(text[last:])
         return "".join(out)
+    # unnamed fn parameters `_: T` get names (signature part only)
+    msig = re.match(r"\s*(?:pub(?:\s*\([^)]*\))?\s+)?(?:const\s+|unsafe\s+)*fn\s", text)
+    if msig:
+        try:
+            sig_, body_ = fn_parts(text)
+            cnt = [0]
+            def nm(mt):
+                cnt[0] += 1
+                new = mt.group(1) + "_p%d:" % cnt[0]
+                log.append({"rule": "R2", "where": where, "before": "_:", "after": "_p%d:" % cnt[0]})
+                return new
+            sig2 = re.sub(r"([(,]\s*)_\s*:", nm, sig_)
+            text = sig2 + body_
+        except Exception:
+            pass
     text = r2(r"\|_\|", lambda mt, k: "|_e%d|" % k, text)
     text = r2(r"(?<![A-Za-z0-9_])for _ in(?![A-Za-z0-9_])", lambda mt, k: "for _i%d in" % k, text)
     return text
@@ -222,6 +238,24 @@ def weave(unit_path, repo, verif_root, vacuity=False):
             p = os.path.join(verif_root, s[len("//@include "):].strip())
             chunks.append(Chunk(open(p).read(), {"kind": "include", "path": p}))
             i += 1
+        elif s.startswith("//@census "):
+            # //@census <count> <glob relative to repo> /<regex>/ : the number of matches in the repository must be
+            # exactly <count>; otherwise something this unit enumerates has appeared or vanished (lost anchor)
+            mt = re.match(r"//@census\s+(\d+)\s+(\S+)\s+/(.*)/\s*$", s)
+            if not mt:
+                raise LostAnchor("%s:%d: bad census directive" % (unit_path, i + 1))
+            import glob
+            want, pat, rx = int(mt.group(1)), mt.group(2), re.compile(mt.group(3), re.S)
+            found, hits = 0, []
+            for fpath in sorted(glob.glob(os.path.join(repo, pat), recursive=True)):
+                txt = open(fpath).read()
+                for m_ in rx.finditer(txt):
+                    found += 1
+                    hits.append("%s:%d" % (os.path.relpath(fpath, repo), txt.count("\n", 0, m_.start()) + 1))
+            if found != want:
+                raise LostAnchor("census /%s/ in %s: %d matches, expected %d (%s)" % (mt.group(3), pat, found, want, ", ".join(hits)))
+            log.append({"rule": "census", "where": pat, "fn": "-", "before": mt.group(3), "after": "%d matches: %s" % (found, ", ".join(hits))})
+            i += 1
         elif s.startswith("//@use "):
             # //@use <unit> <obligation name> : import an extract block of another unit with its contract ASSUMED
             # (external_body): the contract is proved in that unit, here it is a trusted callee contract
@@ -251,7 +285,7 @@ def weave(unit_path, repo, verif_root, vacuity=False):
             relfile, selector = relfile.strip(), selector.strip()
             i += 1
             opts = {"as": None, "ret": None, "pub": False, "attrs": False, "subs": [], "noauto": False,
-                    "sigonly": False, "external_body": False, "spec": [], "loops": {}, "afterloops": {}, "loopends": {}, "anchors": [], "hoist": [], "replace_body": False, "assumed_from": None, "derive_keep": None}
+                    "sigonly": False, "external_body": False, "spec": [], "loops": {}, "afterloops": {}, "loopends": {}, "anchors": [], "hoist": [], "replace_body": False, "assumed_from": None, "derive_keep": None, "vattrs": []}
             while i < len(lines):
                 t = lines[i].strip()
                 if t == "//@end":
@@ -285,6 +319,8 @@ def weave(unit_path, repo, verif_root, vacuity=False):
                     opts["sigonly"] = True
                 elif d == "external_body":
                     opts["external_body"] = True
+                elif d.startswith("vattr "):
+                    opts["vattrs"].append(d[6:].strip())
                 elif d.startswith("assumed "):
                     opts["assumed_from"] = d[8:].strip()
                 elif d.startswith("hoist "):
@@ -428,6 +464,9 @@ def _do_extract_impl(repo, relfile, selector, opts, sources, log, extracted, len
         chunks.append(Chunk(attr_prefix + text, origin("item")))
         return chunks
     sig, body = fn_parts(text)
+    for va in opts.get("vattrs", []):
+        # verifier-only attribute (e.g. a per-function resource limit); no effect on the executable text
+        chunks.append(Chunk("#[verifier::%s]" % va, origin("attr")))
     if opts["ret"]:
         sig = name_return(sig, opts["ret"])
     chunks.append(Chunk(sig.rstrip() + "\n", origin("signature")))
